@@ -36,7 +36,7 @@ func init() {
 		ID:    "C09",
 		Level: "exploration",
 		Rule: "case = sketch reached by a seeded history incl. cleared-then-refilled stores, negatives with every store kind and arbitrary non-negative float64 weights: ToProto -> proto.Marshal -> Unmarshal -> FromProtoWithStoreProvider(any kind) must give an Equals mapping and bitwise equal zero weight and bin weights (count within 1e-12); EncodeProto bytes must unmarshal to a message proto.Equal to ToProto(); " +
-			"sources are also reweighted and may hold bins whose weight underflowed to zero (which carry nothing to rebuild); hand-built messages mixing binCounts and contiguousBinCounts (dyadic weights where they overlap, indexes also at both ends of the int32 range) must add up, and the rebuilt sketch written again by both writers must describe the same bins. Non-trivial = both stores non-empty and >=1 non-integer weight; distinct = hash of the history.",
+			"sources are also reweighted and may hold bins whose weight underflowed to zero (which carry nothing to rebuild); hand-built messages mixing binCounts and contiguousBinCounts (dyadic weights where they overlap, indexes also at both ends of the int32 range) must add up, and the rebuilt sketch written again by both writers must describe the same bins; half of the sources are converted again later - after the earlier message was scribbled on and a stream whose mapping is Equals but not bit-identical was decoded into them - and both writers must then describe the mapping the sketch holds. Non-trivial = both stores non-empty and >=1 non-integer weight; distinct = hash of the history.",
 		Cases:     core.Scale(60000, 1500000),
 		Mandatory: []string{"oracle.proto_roundtrips", "oracle.later_message_checks", "later_message.mapping_replaced_by_equal_one", "oracle.stream_equals_message", "oracle.mixed_message_checks", "weights.arbitrary", "source.cleared_then_refilled", "proto.target.dense", "proto.target.sparse", "proto.target.paginated", "proto.target.collapsing_lowest", "proto.target.collapsing_highest", "proto.via_FromProto", "proto.via_paginated_method", "source.underflowed_bins", "source.reweighted", "mixed.extreme_indexes", "oracle.mixed_second_leg", "source.unread_before_writing", "source.wide_span", "oracle.message_is_a_snapshot"},
 		Run:       runC09,
